@@ -16,7 +16,14 @@ def load_known():
         return json.load(f).get("findings", [])
 
 
+# a known finding is a cause class of the tree, not of one build configuration: the configuration twins prefix their signatures, the prefix is ignored here
+CONFIG_PREFIXES = ("debug-assertions-off:", "cfg-fuzzing:", "nutype-std-feature-off:")
+
+
 def match_known(known, prop, signature):
+    for pre in CONFIG_PREFIXES:
+        if signature.startswith(pre):
+            signature = signature[len(pre):]
     for k in known:
         if k.get("status") != "known" or k.get("property") != prop:
             continue
@@ -133,7 +140,7 @@ def log(msg):
 
 
 def runtime_check(res: Result, ws_name, decls, props_to_run, extra_emit=None, features=cratebuild.ALL_FEATURES, parts=16, max_quarantine_frac=0.2, extra_args=None,
-                  failure_handler=None, profile=None):
+                  failure_handler=None, profile=None, rustflags=None, default_features=True, monitor_tier=None):
     """Build the workspace for decls, run monitors for each property in props_to_run; returns
     (reports_by_prop, modules_by_id). Fills res.quarantined / res.inconclusive."""
     modules = []
@@ -143,7 +150,7 @@ def runtime_check(res: Result, ws_name, decls, props_to_run, extra_emit=None, fe
         mt = emit_module(d, em, ei)
         modules.append((d.id, mt))
         by_id[d.id] = (d, mt)
-    ws = cratebuild.Workspace(ws_name, profile=profile)
+    ws = cratebuild.Workspace(ws_name, profile=profile, rustflags=rustflags, default_features=default_features)
     ok, quarantined, info = cratebuild.build_workspace(ws, modules, features, log=log)
     log("build %s: ok=%s quarantined=%d %s" % (ws_name, ok, len(quarantined), {k: v for k, v in info.items() if k in ("rounds", "build_s")}))
     res.declarations = len(modules) - len(quarantined)
@@ -159,7 +166,7 @@ def runtime_check(res: Result, ws_name, decls, props_to_run, extra_emit=None, fe
     out = {}
     for prop in props_to_run:
         outdir = os.path.join(ws.dir, "out")
-        reports, failures, dt = cratebuild.run_monitor(ws, prop, res.tier, res.seed, outdir, parts=parts,
+        reports, failures, dt = cratebuild.run_monitor(ws, prop, monitor_tier or res.tier, res.seed, outdir, parts=parts, timeout=(3400 if res.tier == "quick" else 6 * 3600),
                                                        extra_args=(extra_args or []) + ["--expect-subjects", str(len(modules) - len(quarantined) - len(unspec))])
         log("monitor %s: %d reports, %d failures, %.1fs" % (prop, len(reports), len(failures), dt))
         for f in failures:
